@@ -4,7 +4,7 @@
    failed_hist s : (seq, numTries, backoff-said-Stop, events) of every onRetryError call, newest first
    result_hist s : (seq, numTries, ok) of every return of outFn inside the retry loop, newest first
    fseq f        : the sequence number of a failed_hist entry *)
-From Verif Require Import Base.Sx Model.Batcher Proofs.Batcher Gen.BatcherGen.
+From Verif Require Import Base.Sx Model.Batcher Proofs.Batcher Proofs.BatcherStatus Gen.BatcherGen.
 From Verif Require Model.C09Route Proofs.C09Route.
 From Coq Require Import List ZArith.
 Import ListNotations.
@@ -95,6 +95,15 @@ Theorem c09_no_deadqueue_commits_all :
 Proof. exact committed_shape_plain. Qed.
 Print Assumptions c09_no_deadqueue_commits_all.
 
+(* the status InDeadQueue (3) is read back from commitBatch only for a batch the retry frame gave up WITH a dead queue (its
+   events were emptied: the main batcher commits nothing of it); every other batch reads back the status it was sealed with *)
+Theorem c09_dead_queue_status_only_after_give_up :
+  forall c ls s seq s',
+    run c (init c) ls = Some s -> step c s (LCommitEnd seq 3) = Some s' ->
+    exists b, find_bat (flight s) seq = Some b /\ bemptied b = true.
+Proof. exact commit_status_dead_queue_only. Qed.
+Print Assumptions c09_dead_queue_status_only_after_give_up.
+
 (* ---- non-vacuity: AttemptNum = 1, three failed calls, then give-up into the dead queue ---------- *)
 Definition nv_cfg : cfg :=
   {| workers := 1; maxCount := 1; maxBytes := 0; retriable := true; retry := 1; deadq := true;
@@ -176,13 +185,64 @@ Print Assumptions c09_route_agree_means_one_way.
    queue after 3 calls), then 400 (dropped, committed by the main output).  And the observable of the seeded regression
    (400 answered, events handed to the dead queue AND committed by the main output) is rejected. *)
 Definition nv_rcfg : rcfg :=
-  {| kind := 0; dq := true; retry := 1; fatal := false; strict := false; split := false; bsize := 2; nbatch := 2 |}.
+  {| kind := 0; dq := true; retry := 1; fatal := false; strict := false; split := false; bsize := 2; nbatch := 2; presp := false |}.
 Example c09_route_nonvacuous :
   batches 2 nv_rcfg {| pre := [500; 500; 500; 400]; tail := 200 |} 0 = Some ([(WDead, 2%nat); (WDrop, 0%nat)], 4%nat) /\
   route_model nv_rcfg {| pre := [500; 500; 500; 400]; tail := 200 |} =
     Some (SL [SZ 4; SZ 0; SL [SL [SZ 0; SZ 1; SZ 1]; SL [SZ 0; SZ 1; SZ 1]; SL [SZ 1; SZ 0; SZ 0]; SL [SZ 1; SZ 0; SZ 0]]]) /\
   one_way_ok nv_rcfg (SL [SZ 1; SZ 0; SL [SL [SZ 1; SZ 1; SZ 1]; SL [SZ 1; SZ 1; SZ 1]; SL [SZ 1; SZ 0; SZ 0]; SL [SZ 1; SZ 0; SZ 0]]]) = false /\
-  batches 1 {| kind := 0; dq := false; retry := -1; fatal := true; strict := false; split := true; bsize := 3; nbatch := 1 |}
+  batches 1 {| kind := 0; dq := false; retry := -1; fatal := true; strict := false; split := true; bsize := 3; nbatch := 1; presp := false |}
           {| pre := [503; 413; 200; 413; 413]; tail := 200 |} 0 = Some ([(WDrop, 1%nat)], 5%nat).
+Proof. vm_compute. repeat split; reflexivity. Qed.
+
+(* ---- the acknowledgement's body (elasticsearch process_response / reportESErrors, splunk parseSplunkError) ----------
+   an answer a = status + 1000 * body class.  A 2xx answer whose body the plugin's response function rejects is a FAILED
+   attempt: out() returns the error, the retry loop goes on — it is never a delivery and never a drop *)
+Theorem c09_route_unreadable_ack_is_failure :
+  forall c s a s',
+    split_on c = false -> next s = (a, s') ->
+    ok2xx (a_status a) = true -> body_ok (kind c) (presp c) (a_body a) = false ->
+    attempt c s = Some (ARetry, seen (kind c) (a_status a), s').
+Proof. exact route_unreadable_ack_is_failure. Qed.
+Print Assumptions c09_route_unreadable_ack_is_failure.
+
+(* without process_response elasticsearch never looks at the body: the status alone decides *)
+Theorem c09_route_body_ignored_without_process_response :
+  forall a, classify 0 false a = classify 0 false (a_status a).
+Proof. exact route_body_ignored_without_process_response. Qed.
+Print Assumptions c09_route_body_ignored_without_process_response.
+
+(* a far end whose every answer is a failed attempt: with retry >= 0 the batch is given up after exactly retry + 2 calls of
+   out() (numTries = retry + 1), into the dead queue iff there is one; the far end saw retry + 2 requests (none if refused) *)
+Theorem c09_route_always_failing_given_up :
+  forall c a r,
+    split_on c = false -> classify (kind c) (presp c) a = ARetry -> 0 <= retry c ->
+    batch_loop (batch_fuel c (const_src a)) c 0 (const_src a) r =
+      Some (if dq c then WDead else WErr, Z.to_nat (retry c + 1),
+            (r + Z.to_nat (retry c + 2) * seen (kind c) (a_status a))%nat, const_src a).
+Proof. exact route_always_failing_given_up. Qed.
+Print Assumptions c09_route_always_failing_given_up.
+
+(* ... in particular a far end that always acknowledges with a body the plugin cannot read *)
+Theorem c09_route_always_unreadable_given_up :
+  forall c a r,
+    split_on c = false -> ok2xx (a_status a) = true -> body_ok (kind c) (presp c) (a_body a) = false -> 0 <= retry c ->
+    exists n, batch_loop (batch_fuel c (const_src a)) c 0 (const_src a) r =
+      Some (if dq c then WDead else WErr, Z.to_nat (retry c + 1), n, const_src a).
+Proof. exact route_always_unreadable_given_up. Qed.
+Print Assumptions c09_route_always_unreadable_given_up.
+
+(* non-vacuity: elasticsearch with process_response, dead queue, retry 1: 200 with an unreadable body three times -> given
+   up into the dead queue after 3 requests; the same answers WITHOUT process_response are a delivery at the first request;
+   200 with "errors":true and per-item errors (class 2) is a delivery under process_response; splunk rejects every body
+   but {"code":0} *)
+Definition nv_presp : rcfg :=
+  {| kind := 0; dq := true; retry := 1; fatal := false; strict := false; split := false; bsize := 2; nbatch := 1; presp := true |}.
+Example c09_route_ack_body_nonvacuous :
+  batches 1 nv_presp (const_src 1200) 0 = Some ([(WDead, 2%nat)], 3%nat) /\
+  batches 1 {| kind := 0; dq := true; retry := 1; fatal := false; strict := false; split := false; bsize := 2; nbatch := 1; presp := false |}
+          (const_src 1200) 0 = Some ([(WMain, 0%nat)], 1%nat) /\
+  batches 1 nv_presp (const_src 2200) 0 = Some ([(WMain, 0%nat)], 1%nat) /\
+  classify 2 false 6200 = ARetry /\ classify 2 false 200 = AOk /\ classify 1 false 1200 = AOk.
 Proof. vm_compute. repeat split; reflexivity. Qed.
 End Route.
